@@ -189,6 +189,33 @@ func runC06(c *fw.Ctx) {
 		})
 	}
 
+	// ---- chains: operands with a history ----
+	for i := 0; i < c.Pick(4000, 60000); i++ {
+		c.Case(func(k *fw.K) {
+			p := genChain(k.Rng, 2+k.Rng.Intn(6))
+			k.Case = c01case{Family: "forward chain of shape / index / element-wise operations", Prog: p}
+			k.Key("%s", chainKey(p))
+			k.Count("chain_cases", 1)
+			runChain(k, p)
+		})
+	}
+	// the keepdims idiom on ranks 3..6: reduce along dim, UnSqueeze at the same dim; the reduced tensor must stay intact
+	for _, shape := range Shapes(3, c.Pick(5, 6), 2) {
+		for dim := range shape {
+			shape, dim := shape, dim
+			c.Case(func(k *fw.K) {
+				x := Shuffled(k.Rng, Unique(k.Rng, shape, 0.1, 3))
+				op := []string{"sumalong", "maxalong", "meanalong"}[k.Rng.Intn(3)]
+				p := ref.Prog{{Op: "leaf", Shape: shape, Data: x.Data}, {Op: op, In: []int{0}, Dim: dim}, {Op: "unsqueeze", In: []int{1}, Dim: dim},
+					{Op: "unsqueeze", In: []int{1}, Dim: 0}, {Op: "flatten", In: []int{1}, Dim: 0}}
+				k.Case = c01case{Family: "keepdims idiom", Prog: p}
+				k.Key("keepdims/%s/%d", shapeKey(shape), dim)
+				k.Count("chain_cases", 1)
+				runChain(k, p)
+			})
+		}
+	}
+
 	// ---- Concat ----
 	for _, base := range Shapes(1, c.Pick(3, 4), 3) {
 		for dim := range base {
